@@ -110,6 +110,7 @@ def register_text(R):
 def register_content(R):
     register_text(R)
     register_files(R)
+    register_copy(R)
     R.fields_of("ContentType", type="any", subtype="any", parameters="dict")
     # text_content: one chunk, the utf8 encoding of the text, typed text/plain; charset=utf8; non-str is rejected
     R.contract(CT + "text_content", props=["C16"], params={"text": "any"}, pure=True, returns="Content",
@@ -123,7 +124,8 @@ def register_content(R):
     # Content.iter_bytes: whatever the stored reader returns, evaluated at each call (no caching)
     R.contract(CT + "Content.iter_bytes", props=["C16"], returns="list",
                ensures=["implies(fieldof(self._get_bytes, 'buf') is not absent(), ret is self._get_bytes.buf)",
-                        "implies(fieldof(self._get_bytes, 'buf') is absent(), not allocated(ret) and listof(ret) == elems(fieldof(self._get_bytes, 'items')))"],
+                        "implies(fieldof(self._get_bytes, 'buf') is absent(), not allocated(ret) and listof(ret) == elems(fieldof(self._get_bytes, 'items')))",
+                        "listof(ret) == content_chunks(self)"],
                pure=True)
     # content_from_reader / content_from_stream: lazy unless buffer_now
     R.contract(CT + "content_from_stream", props=["C16"],
@@ -190,3 +192,18 @@ def register_files(R):
                requires=["all(isinstance(c, bytes) for c in content_chunks(self))", "all(isinstance(c, bytes) for c in content_chunks(other))"],
                ensures=["result == (ct_equal(self.content_type, other.content_type) and "
                         "bconcat(content_chunks(self)) == bconcat(content_chunks(other)))"])
+
+
+def register_copy(R):
+    # _copy_content applied to a testtools Content whose reader may hand out its own buffer list (the general contract, for content of
+    # any provenance, is in specs/testcase.py): the copy's bytes are a SNAPSHOT -- a list created by this call (never the source's own buffer),
+    # holding what the source's iter_bytes() gave at the time of the copy; same content type object
+    R.contract("testtools.testcase:_copy_content@Content", props=["C16"], params={"content_object": "Content"}, pure=True, returns="Content",
+               requires=["content_object.content_type is not None"],       # Content's constructor refuses None
+               context={"SRC": "content_object._get_bytes"},
+               ensures=["not allocated(ret)", "ret is not content_object",
+                        "ret.content_type is content_object.content_type",
+                        "fieldof(ret._get_bytes, 'buf') is not absent()",
+                        "is_ref(fieldof(ret._get_bytes, 'buf')) and not allocated(fieldof(ret._get_bytes, 'buf'))",
+                        "listof(fieldof(ret._get_bytes, 'buf')) == (listof(fieldof(SRC, 'buf')) if fieldof(SRC, 'buf') is not absent() "
+                        "else elems(fieldof(SRC, 'items')))"])
